@@ -19,12 +19,43 @@ from . import common
 from .common import Check, run_tlc
 
 
+def km_types():
+    """number kinds through the Kormann-Meixner model: with HelperAlloc = "like" the specification predicts which input
+    kinds cut a fraction off; the pinned code must give a different result for exactly those"""
+    from . import check_km as km
+
+    rng = np.random.default_rng(0)
+    agree = disagree = fm = fc = 0
+    for cfgname in ("MC_KMTypes_footprint_pinned", "MC_KMTypes_z0_pinned"):
+        r = run_tlc("KMTypes", cfgname, timeout=1200)
+        em = sorted(r.emitted, key=lambda e: json.dumps(e, sort_keys=True))
+        for i, e in enumerate(em):
+            chk = Check("C19")
+            chk._known = []
+            km.replay_kinds(chk, em, [i], rng)
+            code_ok = not chk.violations
+            model_ok = e["lossy"] == 0
+            fm += not model_ok
+            fc += not code_ok
+            if code_ok == model_ok and not any("helper result kinds" in d for d in chk.drift):
+                agree += 1
+            else:
+                disagree += 1
+                if disagree <= 10:
+                    print("DISAGREE KMTypes", e["prog"], e["kinds"], e["stab"], "model lossy", e["lossy"], "code_ok", code_ok, chk.drift[:1])
+    print("FAITHFUL family=KMTypes configs=%d agree=%d disagree=%d fails_in_model=%d fails_in_code=%d" % (agree + disagree, agree, disagree, fm, fc))
+    return disagree
+
+
 def main(families):
     from . import realsolver as rs
     from . import check_solver as cs
 
     bad = 0
     for fam in families:
+        if fam == "KMTypes":
+            bad += km_types()
+            continue
         cfgname = "MC_%s_pinned" % fam
         r = run_tlc("MCSolver", cfgname, timeout=3000, env={"JAVA_TOOL_OPTIONS": "-XX:+UseParallelGC -Xmx12g"})
         props = [p for p, f in cs.FAMILY.items() if f == fam]
